@@ -57,7 +57,12 @@ rm -rf $tmpv
 echo "$id detected by:${detected:- NONE}"
 python3 - <<PY
 import json
+import os
 m=json.load(open("$out/confirm.json"))
+if os.path.exists("$out/meta.json"):
+    old=json.load(open("$out/meta.json"))
+    for k in ("summary","first_run"):
+        if k in old: m[k]=old[k]
 m["ran"]="scripts/confirm_seed2.sh: fresh worktree of /repo, git apply patch.diff, go test ./..., go test -run demo (with / without the change); then git -C /repo apply, ./bin/wpverif -prop <each claimed property> quick, git -C /repo checkout -- ."
 m["detected_by"]="$detected".split()
 m["needs"]="see NOTES.md (written by the independent agent that produced the change)"
